@@ -146,6 +146,14 @@ def run_dropwater(spec, res):
     rng = random.Random(spec["seed"])
     m = workload.materialise(spec)
     extra = rng.choice([[], ["--whitespace"], ["--noopt"], ["--keep-chain"]])
+    # waters appear as HETATM or ATOM records and under both residue names
+    for it in m["items"]:
+        if isinstance(it, dict) and it["resn"] in ("HOH", "WAT"):
+            if rng.random() < 0.4:
+                it["rec"] = "ATOM"
+            if rng.random() < 0.3:
+                it["resn"] = "WAT" if it["resn"] == "HOH" else "HOH"
+    m["text"] = pdbfmt.to_text(m["items"])
     stripped = [it for it in m["items"] if not (isinstance(it, dict) and it["resn"] in ("HOH", "WAT"))]
     nw = len(m["items"]) - len(stripped)
     if nw == 0:
